@@ -483,10 +483,16 @@ VALIDATION = {
     'binary-operator-two-args': 'class A { A operator + ( const A & a , const A & b ) const ; } ;',
     'unary-operator-not-plus-minus': 'class A { A operator * ( ) const ; } ;',
     'operator-mixed-types': 'class A { A operator + ( const B & b ) const ; } ;',
+    'two-base-classes': 'class D : Base , Mixin { D ( ) ; } ;',
+    'two-base-classes-templated': 'class D : TBase < double > , Mixin { } ;',
+    'operator-mixed-types-suffix-name': 'class Pose3 { Pose3 operator * ( const gtsam :: SuperPose3 & o ) const ; } ;',
+    'operator-mixed-types-suffix-name-2': 'class Vector3 { Vector3 operator + ( const MyVector3 & v ) const ; } ;',
     # accepted by the grammar, rejected when the templates are instantiated
     'typedef-arity/class-surplus': 'template < T > class Box { Box ( ) ; } ; typedef Box < double , int > BoxD ;',
     'typedef-arity/class-too-few': 'template < T , U > class Box { Box ( ) ; } ; typedef Box < double > BoxD ;',
     'typedef-arity/unknown-template': 'class A { A ( ) ; } ; typedef Missing < double > MissingD ;',
+    'typedef-arity/unknown-namespace': 'namespace gtsam { template < T > class Box { Box ( ) ; } ; } typedef gtsm :: Box < double > BoxD ;',
+    'typedef-arity/unknown-inner-namespace': 'namespace gtsam { namespace inner { template < T > class Box { } ; } } typedef gtsam :: iner :: Box < double > BoxD ;',
 }
 
 
